@@ -750,14 +750,24 @@ def build_kinds():
         return [Prop("Marker", "size", int_range(2, 72, (9, 40), none=True, documented=True), none_reading=None, none_removes=True),
                 Prop("Marker", "style", enum_vals(ENUM_CHART + ":XL_MARKER_STYLE", quick=4))]
 
+    def label_font_props():
+        """Font of a point's data label: these kinds exist for the ORDER histories across points, so only the
+        in-domain values of four properties (the Font domain checks run on run_font / paragraph_font)."""
+        out = []
+        for P in font_props():
+            if P.name in ("bold", "italic", "size", "name"):
+                P.values = [v for v in P.values if v.cls in ("valid", "none")]
+                out.append(P)
+        return out
+
     BAR_S0 = P0 + (A("series"), I(0))
     LINE_S0 = P0 + (A("series"), I(0))
     for i in (0, 2):
         chart_kind("point_data_label_%d" % i, "CH-bar", BAR_S0 + (A("points"), I(i), A("data_label")), point_label_props(), pairs=False)
         chart_kind("point_marker_%d" % i, "CH-line", LINE_S0 + (A("points"), I(i), A("marker")), marker_props(), pairs=False)
         chart_kind("point_line_%d" % i, "CH-line", LINE_S0 + (A("points"), I(i), A("format"), A("line")), line_props(), pairs=False)
-    chart_kind("point_label_font_0", "CH-bar", BAR_S0 + (A("points"), I(0), A("data_label"), A("font")), font_props(), pairs=False)
-    chart_kind("point_label_font_2", "CH-bar", BAR_S0 + (A("points"), I(2), A("data_label"), A("font")), font_props(), pairs=False)
+    chart_kind("point_label_font_0", "CH-bar", BAR_S0 + (A("points"), I(0), A("data_label"), A("font")), label_font_props(), pairs=False)
+    chart_kind("point_label_font_2", "CH-bar", BAR_S0 + (A("points"), I(2), A("data_label"), A("font")), label_font_props(), pairs=False)
 
     # --- 'as PowerPoint writes it': objects whose stored form python-pptx never produces itself ----------
     PP = "bench-pp"
@@ -770,7 +780,7 @@ def build_kinds():
     chart_kind("point_data_label_before_existing", "CH-bar", BAR_S0 + (A("points"), I(0), A("data_label")),
                point_label_props(), deck=PP)
     chart_kind("point_label_font_before_existing", "CH-bar", BAR_S0 + (A("points"), I(0), A("data_label"), A("font")),
-               font_props(), deck=PP, pairs=False)
+               label_font_props(), deck=PP, pairs=False)
     chart_kind("point_marker_before_existing", "CH-line", LINE_S0 + (A("points"), I(0), A("marker")), marker_props(), deck=PP)
     chart_kind("point_line_before_existing", "CH-line", LINE_S0 + (A("points"), I(0), A("format"), A("line")), line_props(),
                deck=PP, pairs=False)
